@@ -2091,11 +2091,13 @@ class C09(Prop):
                 bp = rng.randint(1, 4)
                 sym = rng.choice(syms)
                 ops.append(f'{kind} {bp} just 1 {sym}')
-            body = f'A oneof 2 120 121 O {nops} ' + ' '.join(ops) + ' I ' + inputs_all(maxlen, alpha)
-            kind = 'str'
+            y = 233 if n % 4 >= 2 else 121                    # a two-byte atom: spans in bytes differ from spans in tokens
+            body = f'A oneof 2 120 {y} O {nops} ' + ' '.join(ops) + ' I ' + inputs_all(maxlen, [120, y] + syms)
+            kind = 'str' if n % 2 == 0 else 'slice'          # byte offsets / token indices in the spans the callbacks get
+            ek = 'cheap' if n % 5 == 4 else 'rich'
             for fl in ('v', 't'):
                 for mode in ('parse', 'check'):
-                    lines.append(f'PR {fl}{n}{mode[0]} rich {kind} {mode} 80 {body}')
+                    lines.append(f'PR {fl}{n}{mode[0]} {ek} {kind} {mode} 80 {body}')
         # operators and atoms that are real grammars (multi-token operators, optional parts)
         extra = [
             ('A or oneof 2 120 121 delim just 1 120 just 1 45 just 1 45', ['infixl 1 then just 1 43 ornot just 1 43', 'postfix 2 just 2 33 33', 'prefix 3 just 1 45']),
@@ -2160,7 +2162,7 @@ class C09(Prop):
             body = f'X A {atom} O {len(ops)} ' + ' '.join(ops) + ' I ' + inputs_all(3, [120, 40, 41] + syms[:2]) + ' ' + lits
             fl = 'v' if n % 2 == 0 else 't'
             for mode in ('parse', 'check'):
-                lines.append(f'PR {fl}r{n}{mode[0]} rich str {mode} 120 {body}'.replace('  ', ' '))
+                lines.append(f'PR {fl}r{n}{mode[0]} rich {"str" if n % 3 else "slice"} {mode} 120 {body}'.replace('  ', ' '))
         return lines
 
     def custom_run(self, lines, tier, seed, jobs):
